@@ -63,14 +63,17 @@ def array_params(name, data, rng):
   if name in ('LMNN', 'NCA', 'MLKR'):
     out['init'] = fits.grid(rng.standard_normal((d, d)), 4) if rng.random() < 0.5 else 'auto'
   if name in ('ITML', 'ITML_Supervised', 'LSML', 'LSML_Supervised', 'SDML', 'SDML_Supervised'):
-    out['prior'] = fits.spd_array(rng, d) if rng.random() < 0.5 else 'identity'
+    out['prior'] = fits.spd_array(rng, d) if rng.random() < 0.4 else ['identity', 'covariance'][int(rng.integers(0, 2))]
   if name in ('MMC', 'MMC_Supervised'):
-    out['init'] = fits.spd_array(rng, d) if rng.random() < 0.5 else 'identity'
+    out['init'] = fits.spd_array(rng, d) if rng.random() < 0.4 else ['identity', 'covariance'][int(rng.integers(0, 2))]
   return out
 
 
 def run_history(ctx, name, rng, nsets, length):
   datasets = [fits.make_data(rng, d=int(rng.integers(2, 6))) for _ in range(nsets)]
+  for data in datasets:      # memory layout in which the training array is handed to fit (a fresh array per call)
+    data['layout'] = fits.LAYOUTS[int(rng.integers(0, len(fits.LAYOUTS)))]
+    ctx.hist('layout', data['layout'])
   kws = []
   for data in datasets:
     kw = fits.base_kwargs(name, data)
